@@ -239,6 +239,8 @@ def compare(run, exe, lines, infos, res):
         nontrivial = bool(info["pfns"]) and " R0:" in impl
         run.note_case(canon, nontrivial)
         run.count("layout " + info["key"].split(" pg")[0])
+        if " split" in info["key"]:
+            run.count("diskdump split set of %s files" % info["key"].split(" split")[1])
         for p, m in info.get("methods", {}).items():
             run.count("page method " + m)
         for t in impl.split():
